@@ -197,7 +197,7 @@ identical result for every segmentation. non-trivial = >=2 fields and one of {du
     }
 
     fn cases_per_worker(tier: Tier) -> u32 {
-        tier.pick(5000, 40_000)
+        tier.pick(5000, 150_000)
     }
 
     fn strategy(_tier: Tier) -> BoxedStrategy<Case> {
